@@ -53,6 +53,12 @@ UNITS = [
      ["AN_DATA_LABEL", "AN_DATA_DESC", "AN_FILE_LABEL", "AN_FILE_DESC", "ANATOM_HASH_SIZE",
       ("TAG_DATA_LABEL", "ANatype2tag(AN_DATA_LABEL)"), ("TAG_DATA_DESC", "ANatype2tag(AN_DATA_DESC)"),
       ("TAG_FILE_LABEL", "ANatype2tag(AN_FILE_LABEL)"), ("TAG_FILE_DESC", "ANatype2tag(AN_FILE_DESC)")], []),
+    ("Vs", '#include "hdf_priv.h"\n#include "vg_priv.h"\n#include "%s/vsfld.c"\n' % HS +
+     'static const int32 vs_nt_codes[10] = {DFNT_UCHAR8, DFNT_CHAR8, DFNT_FLOAT32, DFNT_FLOAT64, DFNT_INT8, DFNT_UINT8, DFNT_INT16, DFNT_UINT16, DFNT_INT32, DFNT_UINT32};\n'
+     'static long long *vs_nt_sizes(int native) { static long long t[2][10]; for (int i = 0; i < 10; i++) t[native][i] = DFKNTsize(vs_nt_codes[i] | (native ? DFNT_NATIVE : 0)); return t[native]; }\n'
+     'static int vs_host_le(void) { int one = 1; return *(unsigned char *)&one; }\n',
+     ["VDATA_BUFFER_MAX", "_HDF_VSPACK", "_HDF_VSUNPACK", "NRESERVED", ("HOST_LE", "vs_host_le()")],
+     [("NT_CODES", "vs_nt_codes", "10"), ("NT_SIZES", "vs_nt_sizes(0)", "10"), ("NT_NSIZES", "vs_nt_sizes(1)", "10")]),
     ("Crle", '#include "hdf_priv.h"\n#include "%s/crle.c"\n' % HS,
      ["RUN_MASK", "COUNT_MASK", "RLE_BUF_SIZE", "RLE_MIN_RUN", "RLE_MAX_RUN", "RLE_MIN_MIX", "RLE_NIL"], []),
     ("Atom", '#include "hdf_priv.h"\n#include "%s/atom.c"\n' % HS,
